@@ -63,6 +63,7 @@ def parseCentral : Bytes → Option (CRec × Bytes)
       let e := rd16 e0 e1
       let k := rd16 k0 k1
       if e ≠ 0 then none                         -- extra fields: never written by sccache; model rejects
+      else if rd16 m0 m1 = 99 then none          -- method 99 = AES marker: without the AES extra field the zip crate refuses the whole archive
       else if rest.length < n + k then none      -- `read_exact` fails
       else if !nameDecodesToItself (rd16 f0 f1) (rest.take n) then none   -- name would be re-coded; model rejects
       else some ({ system := vm1.toNat, flags := rd16 f0 f1, method := rd16 m0 m1, crc := rd32 c0 c1 c2 c3,
